@@ -227,14 +227,14 @@ func (t *CallableType) IsAssignable(o px.Type, g px.Guard) bool {
 		if or == nil {
 			or = anyTypeDefault
 		}
-		if !isAssignable(t.returnType, or) {
+		if !GuardedIsAssignable(t.returnType, or, g) {
 			return false
 		}
 	}
 
 	// NOTE: these tests are made in reverse as it is calling the callable that is constrained
 	// (it's lower bound), not its upper bound
-	if oc.paramsType != nil && (t.paramsType == nil || !isAssignable(oc.paramsType, t.paramsType)) {
+	if oc.paramsType != nil && (t.paramsType == nil || !GuardedIsAssignable(oc.paramsType, t.paramsType, g)) {
 		return false
 	}
 
@@ -244,7 +244,7 @@ func (t *CallableType) IsAssignable(o px.Type, g px.Guard) bool {
 	if oc.blockType == nil {
 		return false
 	}
-	return isAssignable(oc.blockType, t.blockType)
+	return GuardedIsAssignable(oc.blockType, t.blockType, g)
 }
 
 func (t *CallableType) IsInstance(o px.Value, g px.Guard) bool {
